@@ -257,6 +257,8 @@ type Obligation struct {
 	Goal    Term   // formula that must be valid given the prefix
 	Index   int    // event index
 	Cover   bool   // cover check: the goal must be satisfiable (sat expected)
+	Info    bool   // informational cover (reachability of a call site)
+	CoverPre *Obligation
 	Result  string // unsat (discharged) | sat | unknown | timeout | error
 	Backend string
 	Ms      int64
@@ -671,15 +673,20 @@ func (r *SortReg) CardFun(dom Sort) string {
 		r.funcs[name] = true
 		k := keySort(dom)
 		r.decls = append(r.decls, fmt.Sprintf("(declare-fun %s (%s) Int)", name, dom))
-		r.decls = append(r.decls, fmt.Sprintf("(assert (forall ((d %s)) (! (>= (%s d) 0) :pattern ((%s d)))))", dom, name, name))
-		r.decls = append(r.decls, fmt.Sprintf("(assert (forall ((d %s)) (! (= (= (%s d) 0) (= d ((as const %s) false))) :pattern ((%s d)))))", dom, name, dom, name))
-		r.decls = append(r.decls, fmt.Sprintf("(assert (forall ((d %s) (k %s)) (! (=> (select d k) (>= (%s d) 1)) :pattern ((%s d) (select d k)))))", dom, k, name, name))
 		r.decls = append(r.decls, fmt.Sprintf("(assert (forall ((d %s) (k %s)) (! (= (%s (store d k true)) (ite (select d k) (%s d) (+ (%s d) 1))) :pattern ((%s (store d k true))))))", dom, k, name, name, name, name))
 		r.decls = append(r.decls, fmt.Sprintf("(assert (forall ((d %s) (k %s)) (! (= (%s (store d k false)) (ite (select d k) (- (%s d) 1) (%s d))) :pattern ((%s (store d k false))))))", dom, k, name, name, name, name))
-		// a domain with exactly one element: every member equals any other member
-		r.decls = append(r.decls, fmt.Sprintf("(assert (forall ((d %s) (k %s) (j %s)) (! (=> (and (= (%s d) 1) (select d k) (select d j)) (= k j)) :pattern ((%s d) (select d k) (select d j)))))", dom, k, k, name, name))
+		r.decls = append(r.decls, fmt.Sprintf("(assert (= (%s ((as const %s) false)) 0))", name, dom))
 	}
 	return name
+}
+
+// Card returns card(d) and records the axiom instances for this term.
+func (r *SortReg) Card(d Term) Term {
+	name := r.CardFun(d.Sort)
+	c := App(SInt, name, d)
+	// address-space bound: no map holds 2^56 or more entries
+	r.fact(fmt.Sprintf("(and (>= %s 0) (< %s 72057594037927936) (= (= %s 0) (= %s ((as const %s) false))))", c.S, c.S, c.S, d.S, d.Sort))
+	return c
 }
 
 func sortedKeys[V any](m map[string]V) []string {
